@@ -14,7 +14,6 @@ import vmstep
 # dangling value).  ge_only opcodes: whole opcode; untyped: only when a heap value sits in an index / scalar operand position
 # (the step does not fail; the compiler never emits that shape).  Error paths (TRAP_ERROR) end the run and are not counted.
 GE_ONLY = {
-    "ARR_REMOVE": "the removed element is overwritten without vm_release (native: replay/replay_rc.c arr_remove_arr -> LeakSanitizer)",
     "GC_RETAIN": "manual retain of the top value: the count grows without a new reference (by design; must be paired with GC_RELEASE)",
 }
 UNTYPED_LEAK = {
@@ -92,8 +91,6 @@ ELEM_ALIAS = {
 # step obligations that do not close (never registered): TUPLE_GET (timeout 420 s; .elem: out of memory), STR_CHAR_AT (timeout)
 # measured > ~45 s: thorough tier only
 STEP_THOROUGH = {"STORE_LOCAL", "NEG", "ARR_SET", "LOAD_LOCAL", "ARR_REMOVE"}
-# ... with a quick variant in which the operand shapes are the ones the compiler emits: op -> (M0, M1, M2)
-SHAPED_QUICK = {"ARR_REMOVE": (MINT, AR, SC), "ARR_SET": (ST | SC, MINT, AR)}
 ELEM_THOROUGH = {"ARR_GET", "STRUCT_GET", "UNION_FIELD", "ARR_REMOVE"}
 
 
@@ -128,13 +125,6 @@ def step_obligations():
             a["defines"].pop("VERIF_RC_UNTYPED_LEAK", None)          # index operands are ints in these shapes
             a["tier"] = "thorough" if op in ELEM_THOROUGH else "quick"
             obs.append(a)
-        if op in SHAPED_QUICK:
-            q = copy.deepcopy(o)
-            q["id"] += ".shaped"
-            q["defines"].update(dict(zip(("VERIF_M0", "VERIF_M1", "VERIF_M2"), SHAPED_QUICK[op])))
-            q["defines"].pop("VERIF_RC_UNTYPED_LEAK", None)
-            q["tier"] = "quick"
-            obs.append(q)
         # operand underflow: the same step with only one / two slots on the stack (thorough tier)
         for depth in (1, 2):
             u = copy.deepcopy(o)
